@@ -238,6 +238,20 @@ func genC12(g *Gen, tier string) *Program {
 		r = [2]int{6, 40}
 	}
 	genM3(g, p, m3GenOpts{nameLen: []int{1, 3, 8, 20, 60, 200, 600}, maxTags: 8, tasks: [2]int{1, 3}, reports: r, bursts: true})
+	if pct := map[string]int{"quick": 3, "thorough": 8}[tier]; g.Bool(pct) {
+		// the top of the range: packets as large as a datagram of this transport can
+		// be. One more task fills two of them with long-named counters; a packet
+		// that came out larger than the reporter reckoned is refused by the
+		// transport, so an under-estimate shows up as lost metrics.
+		p.Cfg.M3.MaxPacket = pick(g, int32(65000), int32(65000), int32(64999), int32(64000))
+		m := 1000
+		p.Prelude = append(p.Prelude, Op{K: "m3ac", M: m, Name: genName(g, pick(g, 600, 599, 587), 99), Tags: map[string]string{"a": "1"}})
+		var ops []Op
+		for i := 0; i < 225; i++ {
+			ops = append(ops, Op{K: "m3count", M: m, I: int64(5000000 + i)})
+		}
+		p.Tasks = append(p.Tasks, ops)
+	}
 	if g.Bool(25) {
 		// F5: one or two sends fail; the size bound also holds for whatever is sent
 		// afterwards (a reporter that keeps or re-sends a failed batch must still
@@ -245,6 +259,9 @@ func genC12(g *Gen, tier string) *Program {
 		p.Cfg.Faults.SendFail = []int{g.Range(1, 3)}
 		if g.Bool(30) {
 			p.Cfg.Faults.SendFail = append(p.Cfg.Faults.SendFail, g.Range(2, 5))
+		}
+		if p.Cfg.M3.Dests > 1 && g.Bool(60) {
+			p.Cfg.Faults.FailDest = g.Range(1, p.Cfg.M3.Dests)
 		}
 	}
 	return p
@@ -280,6 +297,9 @@ func genC13(g *Gen, tier string) *Program {
 	genM3(g, p, m3GenOpts{nameLen: []int{3, 8, 20}, maxTags: pick(g, 4, 8, 12, 18), tasks: [2]int{1, 3}, reports: r, collide: true, bursts: g.Bool(30)})
 	if g.Bool(30) {
 		p.Cfg.Faults.SendFail = []int{g.Range(1, 3)}
+		if p.Cfg.M3.Dests > 1 && g.Bool(60) {
+			p.Cfg.Faults.FailDest = g.Range(1, p.Cfg.M3.Dests)
+		}
 	}
 	return p
 }
@@ -403,6 +423,23 @@ func analyseM3(env *Env, faultsAllowed bool) *m3Analysis {
 		d := &env.Net.Log[i]
 		b := decodeDatagram(st.cfg.Protocol, d)
 		a.batches = append(a.batches, b)
+	}
+	if faultsAllowed {
+		// with send failures the destinations may see different subsets of the
+		// batches, but every datagram any of them is sent is one batch, whole and
+		// alone: byte-identical to a datagram handed to destination 0's socket
+		seen := map[string]bool{}
+		for _, i := range perConn[0] {
+			seen[string(env.Net.Log[i].Data)] = true
+		}
+		for c := 1; c < st.cfg.Dests; c++ {
+			for _, i := range perConn[c] {
+				if !seen[string(env.Net.Log[i].Data)] {
+					a.out = append(a.out, vf("multi-dest", "destination %d was sent a datagram of %d bytes that is none of the batches handed to destination 0 (batches glued together or altered)", c, len(env.Net.Log[i].Data)))
+					break
+				}
+			}
+		}
 	}
 	if !faultsAllowed {
 		for c := 1; c < st.cfg.Dests; c++ {
